@@ -3,6 +3,7 @@ package props
 import (
 	"bytes"
 	"fmt"
+	"reflect"
 	"testing"
 
 	"github.com/free5gc/ike/security/encr"
@@ -214,8 +215,13 @@ func c10Oracle(in c10In) probe.Outcome {
 				return probe.Fail("step %d: Decrypt differs from the reference", i)
 			}
 		}
-		if x, ok := long.(*encr.EncrAesCbcCrypto); ok && (x.Iv != nil || x.Padding != nil) {
-			return probe.Fail("step %d: the cipher object acquired per-call state (Iv/Padding set)", i)
+		// the object's test-only hooks (if the implementation has them) must not have been set by an operation
+		if rv := reflect.Indirect(reflect.ValueOf(long)); rv.Kind() == reflect.Struct {
+			for _, name := range []string{"Iv", "Padding"} {
+				if f := rv.FieldByName(name); f.IsValid() && f.Kind() == reflect.Slice && !f.IsNil() {
+					return probe.Fail("step %d: the cipher object acquired per-call state (field %s set by an operation)", i, name)
+				}
+			}
 		}
 	}
 	// ciphertexts handed out earlier are the caller's: later operations on the object must not have touched them
